@@ -127,6 +127,16 @@ Prog == Progs[sub]
 Cur == Prog[m.pc + 1]
 Running == m.status \in {"run", "wait"} /\ m.pc < Len(Prog)
 
+(* a network stack may refuse a request (here: for more pairs than it supports); the instruction then faults and  *)
+(* nothing of the request remains.  After the error the host may send the application's next subroutine.          *)
+RejectOver == IF "reject_over" \in DOMAIN Scn THEN Scn.reject_over ELSE 99
+CreateRefused ==
+  LET args == m.arrs[Val(R(m, Cur.ops[4]))].v IN (IF IsDef(args[2]) THEN Val(args[2]) ELSE 1) > RejectOver
+StepRefused == /\ m' = Fault(m, "request-refused")
+               /\ UNCHANGED <<createQ, recvQ, pending, net, nreq, seqc, herr, hist>>
+Recover == /\ m.status = "fault" /\ sub < Len(Progs) /\ "recover" \in DOMAIN Scn /\ ~herr
+           /\ m' = StartSub(m) /\ sub' = sub + 1
+           /\ UNCHANGED <<createQ, recvQ, pending, net, nreq, seqc, herr, hist>>
 StepCreate ==
   LET o == Cur.ops
       remote == Val(R(m, o[1]))  sock == Val(R(m, o[2]))
@@ -158,7 +168,7 @@ StepOther ==
   /\ m' = m1
   /\ UNCHANGED <<createQ, recvQ, pending, net, nreq, seqc, herr, hist>>
 Step == /\ Running /\ ~herr /\ UNCHANGED sub
-        /\ IF Cur.mn = "create_epr" THEN StepCreate ELSE IF Cur.mn = "recv_epr" THEN StepRecv ELSE StepOther
+        /\ IF Cur.mn = "create_epr" THEN (IF CreateRefused THEN StepRefused ELSE StepCreate) ELSE IF Cur.mn = "recv_epr" THEN StepRecv ELSE StepOther
 Finish == /\ m.status = "run" /\ m.pc >= Len(Prog)
           /\ IF sub < Len(Progs) THEN m' = StartSub(m) /\ sub' = sub + 1
                                 ELSE m' = [m EXCEPT !.status = "done"] /\ sub' = sub
@@ -185,7 +195,7 @@ Retry == /\ pending # << >> /\ ~herr
          /\ (m' # m \/ pending' # pending \/ herr')           \* a retry that changes nothing is a stuttering step
          /\ UNCHANGED <<net, nreq, seqc, sub>>
 
-Next == Step \/ Finish \/ (\E s \in DOMAIN net : Deliver(s)) \/ Retry
+Next == Step \/ Finish \/ Recover \/ (\E s \in DOMAIN net : Deliver(s)) \/ Retry
 Fairness == WF_vars(Step) /\ WF_vars(Finish) /\ WF_vars(Retry) /\ \A s \in 1..8 : WF_vars(Deliver(s))
 Spec == Init /\ [][Next]_vars /\ Fairness
 
